@@ -134,8 +134,9 @@ def gen_c15(rng):
         ops.append("unkeep"); kept = False
     if rng.random() < 0.4:
         ops.append(f"ins k={rng.randrange(6)} ver={ver} size=64"); ver += 1    # ignored after close
-    if rng.random() < 0.4:
-        ops.append(f"rm k={rng.randrange(6)}")                                   # ignored after close
+    if rng.random() < 0.6:
+        # ignored after close (aimed at a key that the close has just persisted, when there is one)
+        ops.append(f"rm k={rng.choice(resident) if resident and rng.random() < 0.7 else rng.randrange(6)}")
     if rng.random() < 0.4:
         ops.append("close")
     if kept:
